@@ -596,7 +596,66 @@ def _nargs_any_then_pending_neutral(i):
     return o
 
 
+def _lk_sonly(i):
+    for f in i.get("flags") or []:
+        if f.get("mode") == 1 and i.get("arg") == "--" + f["name"]:
+            return f
+    return None
+
+
+def _lk_sonly_neutral(i):
+    o = copy.deepcopy(i)
+    o["arg"] = "-" + _lk_sonly(i)["short"]
+    return o
+
+
+def _lk_short_empty(i):
+    fl = i.get("flags") or []
+    if not any(f.get("mode") or len(f.get("short") or "") > 1 for f in fl):
+        return None
+    for f in fl:
+        d = f.get("delim") or "="
+        if f.get("short") and len(f["short"]) == 1 and i.get("arg") == "-" + f["short"] + d:
+            return f
+    return None
+
+
+def _lk_short_empty_neutral(i):
+    o = copy.deepcopy(i)
+    o["arg"] = i["arg"][:-1]
+    return o
+
+
+def _nonposix_short_empty_words(i):
+    out = []
+    for c in (i.get("tree") or {}).get("cmds") or []:
+        fl = c.get("flags") or []
+        if not any(f.get("mode") or len(f.get("short") or "") > 1 for f in fl):
+            continue
+        for f in fl:
+            d = f.get("delim") or "="
+            if f.get("short") and len(f["short"]) == 1:
+                for k, w in enumerate((i.get("words") or [])[:-1]):
+                    if w == "-" + f["short"] + d:
+                        out.append(k)
+    return out
+
+
+def _nonposix_short_empty_neutral(i):
+    o = copy.deepcopy(i)
+    for k in _nonposix_short_empty_words(i):
+        o["words"][k] = o["words"][k][:-1]
+    return o
+
+
+_NONPOSIX_EMPTY = ("non-POSIX flag set, a one-letter shorthand followed by its delimiter and nothing else (`-o= v`): the fork's parser looks for an attached "
+                   "value only in words longer than two characters after the dash, so it gives the *next* word to the flag; LookupArg cuts at the delimiter and takes the (empty) value for attached")
+
 PARSE_CLASSES = [
+    Class("nonposix_short_empty_attached", ("C01",), ("parse",), lambda i: bool(_nonposix_short_empty_words(i)), _nonposix_short_empty_neutral, _NONPOSIX_EMPTY),
+    Class("nonposix_short_empty_attached_lookup", ("C01",), ("lookuparg",), lambda i: _lk_short_empty(i) is not None, _lk_short_empty_neutral, _NONPOSIX_EMPTY),
+    Class("shorthand_only_flag_in_long_form_lookup", ("C01",), ("lookuparg",), lambda i: _lk_sonly(i) is not None, _lk_sonly_neutral,
+          "LookupArg does not know a ShorthandOnly flag in its long form (`--delim`), the fork's parser drops it together with the next word (the finding shorthand_only_flag_in_long_form at the level of the lookup)"),
     Class("nargs_any_flag_before_pending_flag", ("C01",), ("parse",), lambda i: _nargs_any_then_pending(i) is not None, _nargs_any_then_pending_neutral,
           "`--files --color <TAB>` with Nargs < 0 on --files: the parser accepts `--files` without a value when a flag follows it, but rejects it at the end of the line; traverse hands the line without the pending `--color` to the parser, gets `flag needs an argument: --files` and shows that message instead of completing the value of --color"),
     Class("shorthand_only_flag_in_long_form", ("C01", "C07"), ("parse",), lambda i: bool(_sonly_long_words(i)), _sonly_long_neutral,
